@@ -39,5 +39,9 @@ v('c05-clone-shares-index-sigs','R-C05.4',G,"            cloned_sig.add_index_si
 v('c05-s-eq-reordered','R-C05.3',G,"""                self.field_name == other.field_name and
                 self.field_type is other.field_type and""","""                self.field_type is other.field_type and
                 self.field_name == other.field_name and""",expect='silent')
+v('c05-hash-through-repr','R-C05.6',G,"        return hash((self.name, self.type))","        return hash(repr(self))",note='the defect fixed in 86f2566: repr prints attrs in key order, __eq__ ignores key order')
+v('c05-hash-index-name','R-C05.6',G,"        return hash(tuple(self.fields or ()))","        return hash((self.name, tuple(self.fields or ())))",note='IndexSignature.__eq__ treats empty names as equal')
+v('c05-hash-uncompared-state','R-C05.6',G,"        return hash((self.name, self.type))","        return hash((self.name, self.type, id(self)))",note='identity in the hash of a class with structural equality')
+v('c05-s-hash-name-only','R-C05.6',G,"        return hash((self.name, self.type))","        return hash(self.name)",expect='silent')
 json.dump(V, open(os.path.dirname(os.path.abspath(__file__))+'/variants_c05.json','w'), indent=1)
 print(len(V))
